@@ -92,7 +92,8 @@ class Multi:
             c.report('sum-differs-from-contents', '%d sums for %d bins' % (len(sums), m)); return
         if m:
             c.check('sum-differs-from-contents', z3.And([zi(sums[i]) == zs[i] for i in range(m)]), 'a reported bin sum is not the total value of the items reported in that bin')
-        strict = not self.exact() or os.environ.get('VERIF_C06_STRICT') == '1'
+        # strict reading (identical sums vectors also for exact algorithms with three or more bins): on by default in the thorough tier
+        strict = not self.exact() or os.environ.get('VERIF_C06_STRICT', '1' if os.environ.get('VERIF_TIER') == 'thorough' else '0') == '1'
         on = self.objname()
         def same_sums(got, kind):
             got = [zi(v) for v in got]
